@@ -194,6 +194,9 @@ pub fn arb_f64() -> BoxedStrategy<f64> {
         1 => any::<i64>().prop_map(|x| x as f64),
         1 => any::<u64>().prop_map(|x| x as f64),
         1 => (any::<i32>(), -30i32..30).prop_map(|(m, e)| m as f64 * 10f64.powi(e)),
+        // doubles that are exactly an f32 (values that came in through a 32-bit float)
+        2 => any::<u32>().prop_map(|b| f32::from_bits(b) as f64),
+        1 => (-100000i32..100000, 1u32..7).prop_map(|(m, d)| (m as f32 / 10f32.powi(d as i32)) as f64),
     ]
     .boxed()
 }
